@@ -10,7 +10,7 @@
 #include "algs.h"
 
 #define NMAX 34
-#define MAXL 400
+#define MAXL 1100
 typedef struct {
         const char *cipher, *hash;
         int dir;
@@ -28,6 +28,7 @@ static const suite_t CHAINED[] = {
 typedef struct {
         int a, h, dir;
         int a2, h2, dir2, mixed; /* mixed: jobs of two different suites that share an OOO manager in one schedule */
+        int longlen;             /* twin unit with the long length alphabet (several hash blocks per job) */
         int gen;                 /* generated product unit: always explored with the quick bounds (there are thousands of them) */
         char name[96];
 } unit_t;
@@ -399,8 +400,11 @@ run_unit_variant(long item, void *arg)
         KS[1] = keyset_new(m, 4);
         J = calloc(NMAX, sizeof *J);
         /* length alphabet: default, minimum, one block more, long */
-        static const uint32_t want[4] = { 64, 1, 80, 304 };
-        static const uint32_t wanth[4] = { 64, 1, 77, 301 };
+        /* the "@long" twin units use lengths of several hash blocks, so that jobs in one lane set differ in their number of
+         * full blocks (64- and 128-byte block hashes): default 400, shorter 140, one block more 528, long 1040 */
+        static const uint32_t want_s[4] = { 64, 1, 80, 304 }, wanth_s[4] = { 64, 1, 77, 301 };
+        static const uint32_t want_l[4] = { 400, 144, 528, 1040 }, wanth_l[4] = { 400, 140, 528, 1037 };
+        const uint32_t *want = U->longlen ? want_l : want_s, *wanth = U->longlen ? wanth_l : wanth_s;
         for (int sx = 0; sx < (U->mixed ? 2 : 1); sx++) {
                 const int ua = sx ? U->a2 : U->a, uh = sx ? U->h2 : U->h;
                 cur_suite = sx;
@@ -557,22 +561,40 @@ main(int argc, char **argv)
                         if (A->kind == AK_HASH && d == 0)
                                 continue;
                         unit_t *u = &UNITS[NUNITS];
+                        memset(u, 0, sizeof *u);
                         u->a = A->kind == AK_HASH ? 0 : a;
                         u->h = A->kind == AK_HASH ? a : 0;
                         u->dir = d;
                         snprintf(u->name, sizeof u->name, "%s%s", A->name, A->kind == AK_HASH ? "" : d ? "/enc" : "/dec");
                         if (strstr(u->name, filter))
                                 NUNITS++;
+                        if (A->kind == AK_HASH && (A->family == F_HMAC || A->family == F_SHA)) {
+                                unit_t *t = &UNITS[NUNITS];
+                                *t = *u;
+                                t->longlen = 1;
+                                snprintf(t->name, sizeof t->name, "%s@long", A->name);
+                                if (strstr(t->name, filter))
+                                        NUNITS++;
+                        }
                 }
         }
         for (int c = 0; c < NCHAINED; c++) {
                 unit_t *u = &UNITS[NUNITS];
+                memset(u, 0, sizeof *u);
                 u->a = alg_id(CHAINED[c].cipher);
                 u->h = alg_id(CHAINED[c].hash);
                 u->dir = CHAINED[c].dir;
                 snprintf(u->name, sizeof u->name, "%s+%s/%s", CHAINED[c].cipher, CHAINED[c].hash, u->dir ? "enc" : "dec");
                 if (strstr(u->name, filter))
                         NUNITS++;
+                if (ALGS[u->h].family == F_HMAC || ALGS[u->h].family == F_SHA) {
+                        unit_t *t = &UNITS[NUNITS];
+                        *t = *u;
+                        t->longlen = 1;
+                        snprintf(t->name, sizeof t->name, "%s+%s/%s@long", CHAINED[c].cipher, CHAINED[c].hash, u->dir ? "enc" : "dec");
+                        if (strstr(t->name, filter))
+                                NUNITS++;
+                }
         }
         for (int c = 0; c < NMIXED; c++) {
                 unit_t *u = &UNITS[NUNITS];
